@@ -245,6 +245,27 @@ int main(int argc, char** argv)
         out += " | vecs " + guarded([&] { Dune::FieldVector<float,2> w(0.0f); Dune::FieldMatrix<float,2,2> V(0.0f);
                                           Dune::FMatrixHelp::eigenValuesVectors(A, w, V); return vec_hx(w) + " " + mat_hx(V); });
       }
+      else if (op == "k3" && t.size() >= 2) {
+        // the 3x3 eigenvector kernels called directly (binary64 bit patterns):
+        //   k3 eig0 <9 entries row-major> <eval0>      -> evec0
+        //   k3 ortho <e0 e1 e2>                        -> u v
+        //   k3 eig1 <9 entries> <e0 e1 e2> <eval1>     -> evec1
+        using V3 = Dune::FieldVector<double,3>;
+        auto rd = [&](std::size_t i) { double x; unhx(t[i], x); return x; };
+        if (t[1] == "eig0" && t.size() == 12) {
+          Dune::FieldMatrix<double,3,3> A; for (int i = 0; i < 3; ++i) for (int j = 0; j < 3; ++j) A[i][j] = rd(2 + 3*i + j);
+          out = guarded([&] { V3 e(0.0); Dune::FMatrixHelp::Impl::eig0(A, rd(11), e); return vec_hx(e); });
+        }
+        else if (t[1] == "ortho" && t.size() == 5) {
+          V3 e = {rd(2), rd(3), rd(4)};
+          out = guarded([&] { V3 u(0.0), v(0.0); Dune::FMatrixHelp::Impl::orthoComp(e, u, v); return vec_hx(u) + " " + vec_hx(v); });
+        }
+        else if (t[1] == "eig1" && t.size() == 15) {
+          Dune::FieldMatrix<double,3,3> A; for (int i = 0; i < 3; ++i) for (int j = 0; j < 3; ++j) A[i][j] = rd(2 + 3*i + j);
+          V3 e = {rd(11), rd(12), rd(13)};
+          out = guarded([&] { V3 w(0.0); Dune::FMatrixHelp::Impl::eig1(A, e, w, rd(14)); return vec_hx(w); });
+        }
+      }
       else if (op == "sym" && t.size() >= 3) {
         int n = std::stoi(t[2]);
         if ((int) t.size() == 3 + n*n) out = (t[1] == "f") ? sym_dispatch<float>(n, t, 3) : sym_dispatch<double>(n, t, 3);
